@@ -1,4 +1,6 @@
 #!/bin/sh
+# evidence / replays of runs against a deliberately changed tree must not replace the evidence of the real tree
+VERIF_OUT=$(mktemp -d /tmp/verif_out_XXXXXX); export VERIF_OUT; trap 'rm -rf "$VERIF_OUT"' EXIT
 # usage: tools/try_seed.sh <seed dir> <property> : verifies the seed (tests pass, demo fails with / passes without) and runs the check against it
 d=/verif/seeded/$1; p=$2
 cd /repo || exit 9
